@@ -422,6 +422,21 @@ func subCLI(out string, seed uint64, tier string, arg string) {
 	bad("unknown profile", nil, "-profile", "no_such_profile", pemF)
 	bad("bad config file", nil, "-config", filepath.Join(tmp, "nope.toml"), pemF)
 	bad("PEM as DER", nil, "-format", "der", b64F)
+	// several files, one of them bad, in every position: the invocation as a whole must fail
+	failsNonZero := func(desc string, args ...string) {
+		r := runCLI(bin, nil, args...)
+		rep.Evaluations++
+		rep.distinctKey("multi-bad|" + desc)
+		rep.count("multi-bad")
+		if r.code == 0 {
+			rep.violate(Violation{"C15", fmt.Sprintf("%s: exit 0 although one input cannot be decoded", desc), "cli-multi-failopen:" + desc, map[string]interface{}{"args": args, "stdout": r.stdout[:min(len(r.stdout), 200)]}})
+		}
+	}
+	failsNonZero("bad then good", trunc, pemF)
+	failsNonZero("good then bad", pemF, trunc)
+	failsNonZero("good, bad, good", pemF, garbage, pemF)
+	failsNonZero("missing then good", filepath.Join(tmp, "nope.pem"), pemF)
+	failsNonZero("wrong type then good", wrongType, pemF)
 	_ = derF
 	// every listed source / a sample of listed names through the CLI flags (C13 at CLI level)
 	for _, s := range g.Sources() {
